@@ -84,6 +84,20 @@ Theorem dot_coo_ndarray_terminates :
 Proof. exact dot_coo_ndarray_terminates_proof. Qed.
 Print Assumptions dot_coo_ndarray_terminates.
 
+(* (4') ... and what it returns is the product  s1 @ x2.T  of the COO matrix (rows, cols, data: pairwise distinct
+   coordinates, columns in range; the rows need not even be sorted) with the dense operand. *)
+Theorem dot_coo_ndarray_den :
+  forall (V : Type) (vzero : V) (vadd vmul : V -> V -> V), comm_semiring vzero vadd vmul ->
+  forall (array2 : Z -> Z -> V) (rows cols : list Z) (data : list V) (n_in out_cols : Z) (fuel : nat),
+    length rows = length data -> length cols = length data ->
+    NoDup (combine rows cols) -> Forall (fun c => 0 <= c < n_in) cols ->
+    (length data <= fuel)%nat ->
+    exists o, dot_coo_ndarray V vzero vadd vmul fuel rows cols data array2 out_cols = KOk o
+      /\ forall i j, 0 <= j < out_cols ->
+           o i j = np_matmul2 V vzero vadd vmul n_in (coo_cells_den V vzero rows cols data) (fun c j => array2 j c) i j.
+Proof. exact dot_coo_ndarray_den_proof. Qed.
+Print Assumptions dot_coo_ndarray_den.
+
 (* (5) every pair of operand kinds and every return type reaches a kernel, and when an operand is
    sparse the result kind is the requested one. *)
 Theorem dot_dispatch_total :
